@@ -2101,8 +2101,10 @@ static int dfs_copy(vnaproperty_t **destination, const vnaproperty_t *source)
 		free((void *)key);
 		return -1;
 	    }
+	    errno = 0;
 	    new_source = vnaproperty_get_subtree(source, "%s", key);
-	    if (dfs_copy(new_destination, new_source) == -1) {
+	    if ((new_source == NULL && errno != 0) ||
+		    dfs_copy(new_destination, new_source) == -1) {
 		free((void *)keys);
 		free((void *)key);
 		return -1;
@@ -2113,7 +2115,9 @@ static int dfs_copy(vnaproperty_t **destination, const vnaproperty_t *source)
 	break;
 
     case VNAPROPERTY_LIST:
-	count = vnaproperty_count(source, ".");
+	if ((count = vnaproperty_count(source, ".")) == -1) {
+	    return -1;
+	}
 	for (int i = 0; i < count; ++i) {
 	    vnaproperty_t **new_destination, *new_source;
 
@@ -2121,8 +2125,10 @@ static int dfs_copy(vnaproperty_t **destination, const vnaproperty_t *source)
 	    if (new_destination == NULL) {
 		return -1;
 	    }
+	    errno = 0;
 	    new_source = vnaproperty_get_subtree(source, "[%d]", i);
-	    if (dfs_copy(new_destination, new_source) == -1) {
+	    if ((new_source == NULL && errno != 0) ||
+		    dfs_copy(new_destination, new_source) == -1) {
 		return -1;
 	    }
 	}
@@ -2386,8 +2392,8 @@ int _vnaproperty_yaml_export(vnaproperty_yaml_t *vymlp,
 	    yaml_scalar_style_t style = YAML_ANY_SCALAR_STYLE;
 
 	    if ((value = vnaproperty_get(root, ".")) == NULL) {
-		_vnaproperty_yaml_error(vymlp, VNAERR_INTERNAL,
-			"%s: _vnaproperty_get: %s: %s",
+		_vnaproperty_yaml_error(vymlp, VNAERR_SYSTEM,
+			"%s: vnaproperty_get: %s: %s",
 			__func__, vymlp->vyml_filename, strerror(errno));
 		return -1;
 	    }
@@ -2437,10 +2443,20 @@ int _vnaproperty_yaml_export(vnaproperty_yaml_t *vymlp,
 		int value;
 
 		if ((key = vnaproperty_quote_key(*cpp)) == NULL) {
+		    _vnaproperty_yaml_error(vymlp, VNAERR_SYSTEM,
+			    "vnaproperty_quote_key: %s", strerror(errno));
 		    free((void *)keys);
 		    return -1;
 		}
+		errno = 0;
 		subtree = vnaproperty_get_subtree(root, "%s", key);
+		if (subtree == NULL && errno != 0) {
+		    _vnaproperty_yaml_error(vymlp, VNAERR_SYSTEM,
+			    "vnaproperty_get_subtree: %s", strerror(errno));
+		    free((void *)keys);
+		    free((void *)key);
+		    return -1;
+		}
 		if ((value = _vnaproperty_yaml_export(vymlp, subtree)) == -1) {
 		    free((void *)keys);
 		    free((void *)key);
@@ -2462,6 +2478,11 @@ int _vnaproperty_yaml_export(vnaproperty_yaml_t *vymlp,
 	    int sequence;
 	    int count = vnaproperty_count(root, "[]");
 
+	    if (count == -1) {
+		_vnaproperty_yaml_error(vymlp, VNAERR_SYSTEM,
+			"vnaproperty_count: %s", strerror(errno));
+		return -1;
+	    }
 	    errno = 0;
 	    if ((sequence = yaml_document_add_sequence(document, NULL,
 			    YAML_BLOCK_SEQUENCE_STYLE)) == 0) {
@@ -2477,7 +2498,13 @@ int _vnaproperty_yaml_export(vnaproperty_yaml_t *vymlp,
 		vnaproperty_t *subtree;
 		int value;
 
+		errno = 0;
 		subtree = vnaproperty_get_subtree(root, "[%d]", i);
+		if (subtree == NULL && errno != 0) {
+		    _vnaproperty_yaml_error(vymlp, VNAERR_SYSTEM,
+			    "vnaproperty_get_subtree: %s", strerror(errno));
+		    return -1;
+		}
 		if ((value = _vnaproperty_yaml_export(vymlp, subtree)) == -1) {
 		    return -1;
 		}
